@@ -1,0 +1,51 @@
+//go:build verif
+
+package jet
+
+// Well-formedness of parsed templates, as the interpreter contracts assume it (C12, C06). The parser contracts
+// establish the shallow part (WFTag, non-nil results, non-nil children at each constructor call); the deep, recursive
+// predicate is an assumption about every tree reachable from Template.Root. Comments only.
+
+//@ ufunc WF(Node) bool
+//@ ufunc WFL(*ListNode) bool
+//@ ufunc WFSet(*SetNode) bool
+//@ ufunc WFPipe(*PipeNode) bool
+//@ ufunc WFCmd(*CommandNode) bool
+//@ ufunc WFParams(*BlockParameterList) bool
+//@ pred SetBalanced(s *SetNode) := s.IndexExprGetLookup || len(s.Left) == len(s.Right)
+
+//@ axiom forallT(n, "Node", WF(n) ==> n != nil && WFTag(n))
+//@ axiom forallT(l, "*ListNode", l != nil && WFL(l) ==> forall(i, 0, len(l.Nodes), l.Nodes[i] != nil && WF(l.Nodes[i])))
+//@ axiom forallT(s, "*SetNode", s != nil && WFSet(s) ==> len(s.Left) >= 1 && len(s.Right) >= 1 && forall(i, 0, len(s.Left), s.Left[i] != nil && WF(s.Left[i])) && forall(i, 0, len(s.Right), s.Right[i] != nil && WF(s.Right[i])) && (s.IndexExprGetLookup ==> len(s.Left) == 2 && len(s.Right) == 1) && (s.Let ==> forall(i, 0, len(s.Left), NTF(s.Left[i]) == NodeIdentifier || NTF(s.Left[i]) == NodeUnderscore)) && forall(i, 0, len(s.Left), NTF(s.Left[i]) == NodeIdentifier || NTF(s.Left[i]) == NodeUnderscore || NTF(s.Left[i]) == NodeField || NTF(s.Left[i]) == NodeChain))
+//@ axiom forallT(p, "*PipeNode", p != nil && WFPipe(p) ==> len(p.Cmds) >= 1 && forall(i, 0, len(p.Cmds), p.Cmds[i] != nil && WFCmd(p.Cmds[i])))
+//@ axiom forallT(c, "*CommandNode", c != nil && WFCmd(c) ==> c.CallExprNode.BaseExpr != nil && WF(c.CallExprNode.BaseExpr) && (c.CallExprNode.CallArgs.Exprs == nil || len(c.CallExprNode.CallArgs.Exprs) >= 1) && forall(i, 0, len(c.CallExprNode.CallArgs.Exprs), c.CallExprNode.CallArgs.Exprs[i] != nil && WF(c.CallExprNode.CallArgs.Exprs[i])))
+//@ axiom forallT(b, "*BlockParameterList", b != nil && WFParams(b) ==> forall(i, 0, len(b.List), b.List[i].Expression != nil ==> WF(b.List[i].Expression)))
+//@ axiom forallT(p, "*ListNode", p != nil && WF(iface(p, "*ListNode")) ==> WFL(p))
+//@ axiom forallT(p, "*ActionNode", p != nil && WF(iface(p, "*ActionNode")) ==> (p.Set != nil ==> WFSet(p.Set) && SetBalanced(p.Set)) && (p.Pipe != nil ==> WFPipe(p.Pipe)))
+//@ axiom forallT(p, "*PipeNode", p != nil && WF(iface(p, "*PipeNode")) ==> WFPipe(p))
+//@ axiom forallT(p, "*CommandNode", p != nil && WF(iface(p, "*CommandNode")) ==> WFCmd(p))
+//@ axiom forallT(p, "*SetNode", p != nil && WF(iface(p, "*SetNode")) ==> WFSet(p))
+//@ axiom forallT(p, "*ChainNode", p != nil && WF(iface(p, "*ChainNode")) ==> p.Node != nil && WF(p.Node) && len(p.Field) >= 1)
+//@ axiom forallT(p, "*FieldNode", p != nil && WF(iface(p, "*FieldNode")) ==> len(p.Ident) >= 1)
+//@ axiom forallT(p, "*IfNode", p != nil && WF(iface(p, "*IfNode")) ==> (p.Set != nil ==> WFSet(p.Set) && SetBalanced(p.Set)) && p.Expression != nil && WF(p.Expression) && p.List != nil && WFL(p.List) && (p.ElseList != nil ==> WFL(p.ElseList)))
+//@ axiom forallT(p, "*RangeNode", p != nil && WF(iface(p, "*RangeNode")) ==> ite(p.Set != nil, WFSet(p.Set) && 1 <= len(p.Set.Left) && len(p.Set.Left) <= 2 && len(p.Set.Right) == 1, p.Expression != nil && WF(p.Expression)) && p.List != nil && WFL(p.List) && (p.ElseList != nil ==> WFL(p.ElseList)))
+//@ axiom forallT(p, "*BlockNode", p != nil && WF(iface(p, "*BlockNode")) ==> p.Parameters != nil && WFParams(p.Parameters) && (p.Expression != nil ==> WF(p.Expression)) && p.List != nil && WFL(p.List) && (p.Content != nil ==> WFL(p.Content)))
+//@ axiom forallT(p, "*YieldNode", p != nil && WF(iface(p, "*YieldNode")) ==> (!p.IsContent ==> p.Parameters != nil && WFParams(p.Parameters)) && (p.Expression != nil ==> WF(p.Expression)) && (p.Content != nil ==> WFL(p.Content)))
+//@ axiom forallT(p, "*IncludeNode", p != nil && WF(iface(p, "*IncludeNode")) ==> p.Name != nil && WF(p.Name) && (p.Context != nil ==> WF(p.Context)))
+//@ axiom forallT(p, "*AdditiveExprNode", p != nil && WF(iface(p, "*AdditiveExprNode")) ==> (p.Left != nil ==> WF(p.Left)) && p.Right != nil && WF(p.Right))
+//@ axiom forallT(p, "*MultiplicativeExprNode", p != nil && WF(iface(p, "*MultiplicativeExprNode")) ==> p.Left != nil && WF(p.Left) && p.Right != nil && WF(p.Right))
+//@ axiom forallT(p, "*LogicalExprNode", p != nil && WF(iface(p, "*LogicalExprNode")) ==> p.Left != nil && WF(p.Left) && p.Right != nil && WF(p.Right))
+//@ axiom forallT(p, "*ComparativeExprNode", p != nil && WF(iface(p, "*ComparativeExprNode")) ==> p.Left != nil && WF(p.Left) && p.Right != nil && WF(p.Right))
+//@ axiom forallT(p, "*NumericComparativeExprNode", p != nil && WF(iface(p, "*NumericComparativeExprNode")) ==> p.Left != nil && WF(p.Left) && p.Right != nil && WF(p.Right))
+//@ axiom forallT(p, "*NotExprNode", p != nil && WF(iface(p, "*NotExprNode")) ==> p.Expr != nil && WF(p.Expr))
+//@ axiom forallT(p, "*CallExprNode", p != nil && WF(iface(p, "*CallExprNode")) ==> p.BaseExpr != nil && WF(p.BaseExpr) && forall(i, 0, len(p.CallArgs.Exprs), p.CallArgs.Exprs[i] != nil && WF(p.CallArgs.Exprs[i])))
+//@ axiom forallT(p, "*TernaryExprNode", p != nil && WF(iface(p, "*TernaryExprNode")) ==> p.Boolean != nil && WF(p.Boolean) && p.Left != nil && WF(p.Left) && p.Right != nil && WF(p.Right))
+//@ axiom forallT(p, "*IndexExprNode", p != nil && WF(iface(p, "*IndexExprNode")) ==> p.Base != nil && WF(p.Base) && p.Index != nil && WF(p.Index))
+//@ axiom forallT(p, "*SliceExprNode", p != nil && WF(iface(p, "*SliceExprNode")) ==> p.Base != nil && WF(p.Base) && (p.Index != nil ==> WF(p.Index)) && (p.EndIndex != nil ==> WF(p.EndIndex)))
+//@ axiom forallT(p, "*ReturnNode", p != nil && WF(iface(p, "*ReturnNode")) ==> p.Value != nil && WF(p.Value))
+//@ axiom forallT(p, "*TryNode", p != nil && WF(iface(p, "*TryNode")) ==> p.List != nil && WFL(p.List) && (p.Catch != nil ==> (p.Catch.List != nil ==> WFL(p.Catch.List))))
+
+// Templates handed out by a Set (getTemplate and its callers, through the cache) are completely parsed: the body
+// is there and well-formed, and so is every template they extend. Assumed where the Set hands them out.
+//@ ufunc TplOK(*Template) bool
+//@ axiom forallT(t, "*Template", t != nil && TplOK(t) ==> t.Root != nil && WFL(t.Root) && (t.extends != nil ==> TplOK(t.extends)))
